@@ -5,6 +5,7 @@ import (
 	"context"
 	"errors"
 	"path"
+	"strings"
 	"time"
 
 	"github.com/hack-pad/hackpadfs"
@@ -315,6 +316,10 @@ func (fs *FS) Rename(oldname, newname string) error {
 		return err
 	}
 
+	if oldname == "." || strings.HasPrefix(newname, oldname+"/") {
+		// a directory cannot be moved into itself, and the root cannot be moved at all
+		return &hackpadfs.LinkError{Op: "rename", Old: oldname, New: newname, Err: hackpadfs.ErrInvalid}
+	}
 	_, err = fs.getFile(newname)
 	if !errors.Is(err, hackpadfs.ErrNotExist) {
 		return &hackpadfs.LinkError{Op: "rename", Old: oldname, New: newname, Err: hackpadfs.ErrExist}
